@@ -19,6 +19,7 @@ import XzVerif.Gen.C03
 import XzVerif.Lemmas.C03Rc
 import XzVerif.Lemmas.C03Dict
 import XzVerif.Lemmas.C03Probs
+import XzVerif.Lemmas.C03Examples
 
 namespace XzVerif.C03
 open XzVerif.RangeDec XzVerif.LzDict XzVerif.Lzma XzVerif.Lzma2
@@ -289,5 +290,78 @@ theorem match_len_range (s3 s8 : Nat) (h3 : 8 ≤ s3 ∧ s3 < 16) (h8 : 256 ≤ 
     ∧ MATCH_LEN_MIN + LEN_LOW_SYMBOLS + LEN_MID_SYMBOLS + (s8 - LEN_HIGH_SYMBOLS) ≤ LzDict.MATCH_LEN_MAX
     ∧ LzDict.MATCH_LEN_MAX ≤ LZ_DICT_REPEAT_MAX :=
   ⟨(len_range s3 s8 h3 h8).1, (len_range s3 s8 h3 h8).2.1, (len_range s3 s8 h3 h8).2.2.1, (len_range s3 s8 h3 h8).2.2.2, by decide⟩
+
+/-! ## 6. totality
+
+  Every function of the model is a total Lean function: all recursion is structural (on bit counts, on explicit fuel, on
+  `init_bytes_left`), so Lean's acceptance of the definitions is the proof that no loop of the MODEL runs forever.
+  What ties this to "no unbounded loop in the decoder" is that the fuel is never exhausted; the fuel bounds are:
+    * `symLoop`       limit − pos + 2          (every symbol that does not end the call writes ≥ 1 byte)
+    * `lzma2Loop`     2·(input left) + 4       (every iteration consumes a byte, except SEQ_LZMA → SEQ_CONTROL, followed by one that does)
+    * `decodeBuffer`  input left + output left + 4   (every repetition consumes input (dictionary reset) or fills the dictionary)
+  A fuel exhaustion would make the model answer LZMA_PROG_ERROR, which the implementation never returns from these
+  functions: the correspondence run would flag it. -/
+
+/-- The model never reports `LZMA_PROG_ERROR` for a chain whose options are valid (fuel is never exhausted). -/
+def fuel_never_exhausted_statement : Prop :=
+  ∀ (last : LastFilter) (input : List UInt8) (outCap : Nat) (c : Coder),
+    last.init (ByteArray.mk input.toArray) = .ok c → (c.code outCap).1 ≠ Ret.progError
+
+/-- The coder law every caller relies on: not more input consumed than given, not more output than allowed. -/
+def coder_law_statement : Prop :=
+  ∀ (ch : Chain) (input : List UInt8) (outCap : Nat),
+    (rawDecode ch input outCap).consumed ≤ input.length ∧ (ch.pre = [] → (rawDecode ch input outCap).out.length ≤ outCap)
+
+/-- Initialisation is total and rejects exactly the documented cases: PROG_ERROR for lc/lp/pb outside `is_lclppb_valid`,
+    OPTIONS_ERROR for LZMA1EXT flags other than LZMA_LZMA1EXT_ALLOW_EOPM; nothing else fails (allocation aside). -/
+theorem raw_init_exact (last : LastFilter) (input : ByteArray) :
+    match last with
+    | .lzma1 props _ _ => (last.init input).toOption.isSome = props.valid
+    | .lzma1ext props _ _ extFlags _ =>
+        (last.init input).toOption.isSome = (props.valid && (extFlags &&& (0xFFFFFFFF - LZMA_LZMA1EXT_ALLOW_EOPM) == 0))
+    | .lzma2 _ _ => (last.init input).toOption.isSome = true := by
+  cases last with
+  | lzma1 props d p => simp only [LastFilter.init]; cases props.valid <;> simp [Except.toOption]
+  | lzma1ext props d p f e =>
+    simp only [LastFilter.init]
+    cases props.valid <;> simp [Except.toOption]
+    by_cases hf : f &&& 4294967294 = 0 <;> simp [hf]
+  | lzma2 d p => simp [LastFilter.init, Except.toOption]
+
+/-! ## 7. non-vacuity: concrete streams through the model, evaluated by the kernel -/
+
+/-- LZMA2: the end marker alone; bytes after it are not consumed. -/
+example : lzma2Decode 4096 [0x00, 0x55] = { ret := .streamEnd, out := [], consumed := 1 } := by decide +kernel
+/-- LZMA2: the first chunk must reset the dictionary (0x02 = uncompressed chunk without reset is rejected at once). -/
+example : lzma2Decode 4096 [0x02, 0x00, 0x00, 0x41, 0x00] = { ret := .dataError, out := [], consumed := 1 } := by decide +kernel
+/-- … unless a preset dictionary is in use. -/
+example : lzma2Decode 4096 [0x02, 0x00, 0x00, 0x41, 0x00] [0x7A] = { ret := .streamEnd, out := [0x41], consumed := 5 } := by decide +kernel
+/-- LZMA2: uncompressed chunk with dictionary reset, then the end marker. -/
+example : lzma2Decode 4096 [0x01, 0x00, 0x01, 0x41, 0x42, 0x00] = { ret := .streamEnd, out := [0x41, 0x42], consumed := 6 } := by decide +kernel
+/-- LZMA2: after a dictionary reset an LZMA chunk without properties (0x80) is rejected. -/
+example : lzma2Decode 4096 [0x01, 0x00, 0x00, 0x41, 0x80, 0x00] = { ret := .dataError, out := [0x41], consumed := 5 } := by decide +kernel
+/-- LZMA2: truncated input is `LZMA_OK` with everything consumed; too little output space is `LZMA_OK` with input left. -/
+example : lzma2Decode 4096 [0x01, 0x00, 0x01, 0x41] = { ret := .ok, out := [0x41], consumed := 4 } := by decide +kernel
+example : lzma2Decode 4096 [0x01, 0x00, 0x01, 0x41, 0x42, 0x00] [] 1 = { ret := .ok, out := [0x41], consumed := 4 } := by decide +kernel
+/-- LZMA1: the empty stream of known size 0; a first byte other than 0x00 is a data error and is not consumed. -/
+example : lzmaDecode { lc := 0, lp := 0, pb := 0 } 4096 (some 0) false [0, 0, 0, 0, 0] = { ret := .streamEnd, out := [], consumed := 5 } := by
+  decide +kernel
+example : lzmaDecode { lc := 3, lp := 0, pb := 2 } 4096 none true [1, 0, 0, 0, 0] = { ret := .dataError, out := [], consumed := 0 } := by
+  decide +kernel
+/-- LZMA1, known size 1 without end marker: one literal. -/
+example : lzmaDecode { lc := 0, lp := 0, pb := 0 } 4096 (some 1) false [0, 48, 127, 252, 0, 0] = { ret := .streamEnd, out := [0x61], consumed := 6 } := by
+  decide +kernel
+/-- LZMA1 with literals, a match, a short rep and the end marker (kernel-evaluated in Lemmas/C03Examples.lean). -/
+example : lzmaDecode { lc := 0, lp := 0, pb := 0 } 4096 none true [0, 48, 153, 198, 144, 233, 251, 103, 255, 255, 237, 105, 128, 0]
+      = { ret := .streamEnd, out := [0x61, 0x62, 0x61, 0x62, 0x61, 0x62, 0x61], consumed := 14 } := ex_lzma1_eopm
+/-- raw chain level: invalid lc/lp/pb is LZMA_PROG_ERROR, unknown LZMA1EXT flags are LZMA_OPTIONS_ERROR. -/
+example : (rawDecode { last := .lzma1 { lc := 4, lp := 1, pb := 0 } 4096 [] } [0]).ret = .progError := by decide +kernel
+example : (rawDecode { last := .lzma1ext { lc := 3, lp := 0, pb := 2 } 4096 [] 2 0 } [0]).ret = .optionsError := by decide +kernel
+/-- the hypotheses of the invariant theorems are satisfiable -/
+example : RcNorm Rc.reset ∧ ProbInv 1024 ∧ PosInv (DictPos.init 0 0) :=
+  ⟨⟨by decide, by decide⟩, by decide, posInv_init 0 0⟩
+
+/-! ## CONTAINER LEVEL (Stream / Block / Index / filter chains with delta and BCJ)
+  is a separate part of C03: see Props/C03b.lean (or the section another builder appends below this line). -/
 
 end XzVerif.C03
